@@ -1,6 +1,7 @@
 """C07: nsync_run_once runs its function exactly once and nobody returns early."""
 from checks import e3check
 
-QUICK = ['once_spin_argspin_R3', 'once_block_spin_R3', 'once_nested_R3']
-THOROUGH = ['once_block_block_R3', 'once_spin_argspin_R4', 'once_block_spin_R4', 'once_arg_twice_R3', 'once_block_block_other_R3', 'once_block_block_R4']
+QUICK = ['once_spin_argspin_R3', 'once_block_spin_R3']
+THOROUGH = ['once_nested_block_R3', 'once_nested_R3', 'once_block_block_R3', 'once_spin_argspin_R4', 'once_block_spin_R4', 'once_arg_twice_R3', 'once_block_block_other_R3', 'once_block_block_R4']
 scenarios, jobs, confirm, info = e3check.make('C07', QUICK, THOROUGH, 'harness/e3/once_basic.c: callers mix the four variants on one nsync_once (and a second once hashed to the same internal lock/cv slot); the init function counts runs, yields, then sets done; every caller asserts done==1 && runs==1 immediately after its call returns.', ['nsync_run_once', 'nsync_run_once_arg', 'nsync_run_once_spin', 'nsync_run_once_arg_spin', 'nsync_run_once_impl'], ['more than 3 callers'])
+WORKERS = 5     # each query needs 2-10 GB (cbmc + kissat): bounded parallelism keeps the machine out of swap / the OOM killer
